@@ -184,6 +184,23 @@ func (o *Obj) Self() *Obj            { return o }
 func (o *Obj) Add(a, b int) int      { return a + b }
 func (o *Obj) Greet(s string) string { return "hi " + s }
 
+// Tok1..Tok4: zero-argument probe methods (ids 9101..9104) that templates reference WITHOUT parentheses. plush
+// does not call them today; they are dormant fault points (harness/gen.go). Value receivers on a struct held by
+// value: that is the shape for which a reference without a call renders as nothing instead of failing.
+func (o VObj) tok(id int) (string, error) {
+	if o.rt.enter(id, "", pkMethod) {
+		if o.rt.Kind == fkWrongKind {
+			return "", nil
+		}
+		return "tok", o.rt.Fault
+	}
+	return "tok", nil
+}
+func (o VObj) Tok1() (string, error) { return o.tok(9101) }
+func (o VObj) Tok2() (string, error) { return o.tok(9102) }
+func (o VObj) Tok3() error           { _, err := o.tok(9103); return err }
+func (o VObj) Tok4() error           { _, err := o.tok(9104); return err }
+
 // PS is the head of a chained call: obj.PS(id).Name
 func (o *Obj) PS(id int) (*Obj, error) {
 	if o.rt.enter(id, "", pkMethod) {
